@@ -408,6 +408,9 @@ def check_C18(tier):
         for i in range(0, len(calls), 2048):
             batches.append(G.calls_batch(cf, calls[i:i + 2048]))
     G.validate_calls(rep, batches, "c18ctor")
+    # specification growth: every constructor validation path, factory and attach dispatch
+    import ctors
+    ctors.validate(rep, rng, quick)
     _sample_linear(rep, lt)
     rep.cov["exhaustive"] = True
     rep.cov["rule"] = ("TLC exhaustive with ceilings 3 (reached within 2-3 operations); scaled edge replay at 2^32-1; validated "
